@@ -84,7 +84,7 @@ PROPS = {
         "gen": ["EffectOrder"],
     },
     "C06": {
-        "level_text": "Lean 4 theorems over a two-actor transition system (producer emitting n frames with a micro-program over lock / publish / record / unlock; subscriber doing subscribe, then snapshot under the same lock, then history ++ live filtered by seq): for each join-safe emit order, every n and EVERY interleaving, the subscriber delivers 0..n-1 exactly once in order; the producer is independent of subscribers; the snapshot is never blocked forever. The emit orders and handler orders are REGENERATED from the current source by the translator ripx on every run, and the obligations 'the session emitter / task emitter / every continuity append has a join-safe shape' and 'every handler subscribes before its snapshot' are re-proved by decide on the regenerated tables. Tied further by controlled-schedule correspondence: the real emitters and the real GET .../events handlers are single-stepped through yield points (cfg rip_verif) for every (subscribe, snapshot) position on short streams and random schedules on longer ones, all three stream kinds; delivered seqs must equal the model's and the observed point trace must match the generated order. A subscriber lagging more than the channel capacity loses frames: recorded known finding.",
+        "level_text": "Lean 4 theorems over a two-actor transition system (producer emitting n frames with a micro-program over lock / publish / record / unlock; subscriber doing subscribe, then snapshot under the same lock, then history ++ live filtered by seq): for each join-safe emit order, every n and EVERY interleaving, the subscriber delivers 0..n-1 exactly once in order; the producer is independent of subscribers; the snapshot is never blocked forever. The emit orders and handler orders are REGENERATED from the current source by the translator ripx on every run, and the obligations 'the session emitter / task emitter / every continuity append has a join-safe shape' and 'every handler subscribes before its snapshot' are re-proved by decide on the regenerated tables. Tied further by controlled-schedule correspondence: the real emitters and the real GET .../events handlers are single-stepped through yield points (cfg rip_verif) for every (subscribe, snapshot) position on short streams and random schedules on longer ones, all three stream kinds; delivered seqs must equal the model's and the observed point trace must match the generated order. A subscriber lagging more than the channel capacity loses frames: recorded known finding. A second LTS (Rip.Model.Rebuild) covers readers that fall back from an unreadable sidecar to the log and rewrite the sidecar while appenders append: with the rewrite under the seq lock no broadcast frame is ever missing from a readable sidecar, for every number of processes and every schedule (the witness for the code as it was is replayed on the real store each run); its tie is the regenerated order of replay_events / its helper, the regenerated list of functions that call rebuild_best_effort, and the scheduled reader-rebuild race on the real store.",
         "level_note": "Lean kernel; tokio broadcast (FIFO delivery to receivers subscribed at send time) and tokio Mutex are modelled, not verified; the model's channel is unbounded (capacity is the known finding); ripx is trusted to report the order of the effect calls it recognises (cross-checked dynamically against the yield-point trace on every run).",
         "technique": "Lean 4 proof (inductive invariant over all interleavings) + decide over regenerated effect-order tables + controlled-schedule correspondence",
         "design_ref": "§5 C06",
@@ -97,7 +97,7 @@ PROPS = {
             "the subscriber does not lag more than the broadcast channel capacity (16 384 frames) — violated executions are the known finding C06|lag>capacity",
             "no preemption inside one effect call",
         ],
-        "gen": ["EffectOrder", "Consts"],
+        "gen": ["EffectOrder", "Consts", "CallGraph"],
     },
     "C07": {
         "level_text": "Lean 4 theorems over an executable model of everything one run writes (thread_post_message, run_session, the agent loop) as a function of the environment's behaviour — input kind (prompt, tool envelope, checkpoint envelope), provider configured or not, context compilation succeeding or failing, any number of provider turns each streaming any number of frames and making the loop run any tools (mutating or read-only, barred or not, any amount of output), any end reason, cursor or none: for EVERY such behaviour the thread's view of an attached run is message, run_spawned, [selection decided, context compiled], side-effects*, [cursor], run_ended (the acceptor is proved to decide exactly this language), with exactly one of message / run_spawned / run_ended; run_ended is the last frame and directly follows the run's own terminal session frame; the session stream starts with its start frame and has exactly one end frame, last; an unattached session writes nothing on any thread; for parallel runs on one thread every interleaving keeps each run's lifecycle. Obligations re-proved by decide on effect orders REGENERATED from the current source on every run: run_session performs selection, compilation, the loop, the cursor update, the snapshot and run_ended once each in that order, run_ended after every frame emission, with NO early exit in its body (single exit path); thread_post_message appends message, run_spawned, then spawns; side-effects frames directly follow the tool's frames inside the permit. Tied further by end-to-end correspondence: real runs through the HTTP router against a scripted loopback provider that misbehaves in every listed way (HTTP errors, dropped connection, cut at a random byte, empty body, missing [DONE], malformed JSON, schema-invalid events, invalid UTF-8) with all input kinds and tool outcomes, sequential and parallel on one thread; each run is abstracted from its session frames, the model predicts the exact position of every thread frame among them, and independent oracles check grammar, seq numbering, counts, reasons and job end counts on the log.",
